@@ -51,6 +51,9 @@ TEMPLATES = {
     "ns_rebound": "{% set ns = namespace() %}{% set ns.x = 1 %}{% set ns = d %}{% set ns.x = 2 %}{{ ns.x }}",
     "ns_untaken": "{% set ns = d %}{% if z == 5 %}{% set ns.x = 1 %}{% endif %}{% set ns.x = 2 %}{{ ns.x }}",
     "ns_tuple_rebind": "{% set ns = namespace() %}{% set ns, ns.x = d, 1 %}{{ ns.k }}{% set n2 = namespace() %}{% set n2.y, n2 = 2, d %}{{ n2.k }}",
+    # a filter that fails on its input must not have touched the input before failing
+    "indent_list": "{{ items|indent }}",
+    "filters_failing": "{{ d|join(',') }}{{ items|sum }}{{ nested|sort|first }}{{ items|replace(1, 2) }}",
     # `|list` hands out a copy: appending to it changes neither the data, nor a global, nor a cached module's variable
     "list_copy": "{% set a = items|list %}{% set _ = a.append(9) %}{% set b = gl|list %}{% set _ = b.append(9) %}{% import 'lib' as l %}{% set c = l.ll|list %}{% set _ = c.append(9) %}{{ a }}{{ b }}{{ c }}{{ l.ll }}",
     # the parent is chosen by the data of each render; super() must reach the parent chosen by THIS render
@@ -65,7 +68,7 @@ TEMPLATES = {
 }
 POOL = ["imp", "fromctx", "ns", "loopstate", "cycler", "filters", "child", "macro", "setattr", "tojson_indent", "tojson",
         "policies", "impg1", "impg2", "set_attr_of_data", "setblock_attr_of_data", "set_ns_attr",
-        "ns_from_dict", "ae_block", "ae_block@raise", "ns_rebound", "ns_untaken", "list_copy", "dyn@base", "dyn@base2", "genpass", "ns_tuple_rebind"]
+        "ns_from_dict", "ae_block", "ae_block@raise", "ns_rebound", "ns_untaken", "list_copy", "dyn@base", "dyn@base2", "genpass", "ns_tuple_rebind", "indent_list", "filters_failing"]
 VARIANTS = {"raise": {"z": 0}, "base": {"lay": "base"}, "base2": {"lay": "base2"}}
 # templates loaded with template-level globals (same names, different values)
 TEMPLATE_GLOBALS = {"impg1": {"tg": "one"}, "impg2": {"tg": "two"}}
@@ -267,8 +270,14 @@ def run_order(order, async_, iso):
                     "msg": f"order {order}: rendering {n} changed the data: {before[0]!r} -> {after[0]!r}",
                     "script": f"from checks import c29\nc29.replay_seq({list(order)!r}, {async_!r})\n"})
             if after[1] != before[1]:
-                p.violation(f"C29/seq/env-globals-modified/{n}", {"msg": f"order {order}: rendering {n} changed environment globals",
+                changed = sorted(k for k in after[1] if after[1][k] != before[1].get(k))
+                if "<module-state>" in changed:
+                    ms0, ms1 = before[1]["<module-state>"], after[1]["<module-state>"]
+                    changed += sorted(k for k in ms1 if ms1[k] != ms0.get(k))
+                p.violation(f"C29/seq/env-globals-modified/{n}", {"msg": f"order {order}: rendering {n} changed environment globals / policies / module-level state: {changed}",
                                                                  "script": f"from checks import c29\nc29.replay_seq({list(order)!r}, {async_!r})\n"})
+            # blame only the render that made the change
+            before = after
         tg = snapshot(env, data, POOL + ["lib", "base", "libg"])[2]
         for n, g in tg.items():
             if g != TEMPLATE_GLOBALS.get(n, {}):
